@@ -444,11 +444,27 @@ def warm_clients(ctx, workdir):
     }
     reply = ('<e:Envelope xmlns:e="%s"><e:Body><fResponse xmlns="%s"><r>ok</r></fResponse></e:Body></e:Envelope>'
              % (xmlread.ENV11, wsdlkit.TNS)).encode()
+    import suds.plugin
+
+    class AddParam(suds.plugin.DocumentPlugin):
+        """Edits every opened document: operation f gets a further optional parameter."""
+        def parsed(self, context):
+            for n in context.document.branch():
+                if n.name == "element" and n.get("name") == "f":
+                    seq = n.getChild("complexType").getChild("sequence")
+                    from suds.sax.element import Element
+                    e = Element("xsd:element")
+                    e.set("name", "extra")
+                    e.set("type", "xsd:string")
+                    e.set("minOccurs", "0")
+                    seq.append(e)
+    variants["plain+plugin"] = variants["plain"]
     for vname, (w, extra) in variants.items():
         docs = dict(extra)
         docs["main.wsdl"] = w
+        plug = {"plugins": [AddParam()]} if vname.endswith("+plugin") else {}
         base_store = CountingStore(docs)
-        base = suds.client.Client("suds://main.wsdl", documentStore=base_store, cache=None, nosend=True)
+        base = suds.client.Client("suds://main.wsdl", documentStore=base_store, cache=None, nosend=True, **plug)
         base_fp = fingerprint(base, reply)
         for cls in (suds.cache.ObjectCache, suds.cache.DocumentCache):
             for policy in (0, 1):
@@ -458,11 +474,11 @@ def warm_clients(ctx, workdir):
                 try:
                     s1 = CountingStore(docs)
                     cold = suds.client.Client("suds://main.wsdl", documentStore=s1, cache=cls(location=d),
-                                              cachingpolicy=policy, nosend=True, prettyxml=False)
+                                              cachingpolicy=policy, nosend=True, prettyxml=False, **plug)
                     files_after_cold = sorted(os.listdir(d))
                     s2 = CountingStore(docs)
                     warm = suds.client.Client("suds://main.wsdl", documentStore=s2, cache=cls(location=d),
-                                              cachingpolicy=policy, nosend=True, prettyxml=True)
+                                              cachingpolicy=policy, nosend=True, prettyxml=True, **plug)
                 except Exception as e:
                     ctx.fail("client over a %s cache failed" % ("warm" if "cold" in dir() and False else "cold/warm"), meta,
                              repr(e), "a client")
@@ -497,6 +513,32 @@ def warm_clients(ctx, workdir):
                 shutil.rmtree(d, ignore_errors=True)
 
 
+def shared_dir(ctx, workdir):
+    """One directory used by both cache classes: clear and the version check act on every entry."""
+    import suds.cache
+    for opener in ("object", "document"):
+        for action in ("foreign-version", "clear"):
+            d = tempfile.mkdtemp(dir=workdir)
+            oc = suds.cache.ObjectCache(location=d)
+            dc = suds.cache.DocumentCache(location=d)
+            oc.put("a", {"obj": 1})
+            dc.put("b", mk_value("document", 2))
+            meta = {"opened_by": opener, "action": action}
+            ctx.case(("shared", opener, action), True)
+            if action == "foreign-version":
+                with open(os.path.join(d, "version"), "w") as f:
+                    f.write("0.0-foreign")
+                (suds.cache.ObjectCache if opener == "object" else suds.cache.DocumentCache)(location=d)
+            else:
+                (oc if opener == "object" else dc).clear()
+            left = entry_files(d)
+            got = (suds.cache.ObjectCache(location=d).get("a"), suds.cache.DocumentCache(location=d).get("b"))
+            if left or got != (None, None):
+                ctx.fail("entries written under another version / before clear() are still served", meta,
+                         {"files": left, "get": [repr(g)[:40] for g in got]}, "empty cache")
+            shutil.rmtree(d, ignore_errors=True)
+
+
 def run(ctx):
     workdir = tempfile.mkdtemp(prefix="verif-c11-")
     try:
@@ -504,6 +546,7 @@ def run(ctx):
         sweep(ctx, workdir)
         stress(ctx, workdir)
         write_failures(ctx, workdir)
+        shared_dir(ctx, workdir)
         warm_clients(ctx, workdir)
     finally:
         shutil.rmtree(workdir, ignore_errors=True)
